@@ -13,6 +13,10 @@ from . import VERIF_DIR, REPO
 from . import build, findings
 
 
+# sensitivity probes (VERIF_REPO=<scratch copy>) must not overwrite the evidence / replays of the real tree
+OUT_DIR = VERIF_DIR if REPO == "/repo" else os.path.join(REPO, ".vf_out")
+
+
 def _default_shards(tier):
     return 8 if tier == "quick" else 16
 
@@ -126,7 +130,7 @@ def main(argv):
         if v["subcheck"] in seen_sub:
             continue
         seen_sub.add(v["subcheck"])
-        rdir = os.path.join(VERIF_DIR, "replays", pid)
+        rdir = os.path.join(OUT_DIR, "replays", pid)
         os.makedirs(rdir, exist_ok=True)
         from .core import case_hash
         name = re.sub(r"[^A-Za-z0-9_.-]+", "_", v["subcheck"])[:80] + "-" + case_hash(v["case"]) + ".json"
@@ -134,7 +138,7 @@ def main(argv):
         with open(path, "w") as f:
             json.dump({"property": pid, "subcheck": v["subcheck"].split("/")[0], "message": v["message"],
                        "case": v["case"], "seed": seed, "tier": tier}, f, indent=1)
-        out_lines.append("VIOLATION property=%s replay=%s" % (pid, os.path.relpath(path, VERIF_DIR)))
+        out_lines.append("VIOLATION property=%s replay=%s" % (pid, os.path.relpath(path, VERIF_DIR) if OUT_DIR == VERIF_DIR else path))
         print("[violation] %s: %s" % (v["subcheck"], v["message"][:1500]))
 
     required = getattr(mod, "REQUIRED_LABELS", [])
@@ -155,8 +159,8 @@ def main(argv):
     evidence = {"property_id": pid, "tier": tier, "seed": seed, "level": "exploration", "coverage": cov,
                 "assumptions": list(getattr(mod, "ASSUMPTIONS", [])), "wall_s": round(wall, 2),
                 "violations": len(seen_sub)}
-    os.makedirs(os.path.join(VERIF_DIR, "evidence"), exist_ok=True)
-    with open(os.path.join(VERIF_DIR, "evidence", "%s.json" % pid), "w") as f:
+    os.makedirs(os.path.join(OUT_DIR, "evidence"), exist_ok=True)
+    with open(os.path.join(OUT_DIR, "evidence", "%s.json" % pid), "w") as f:
         json.dump(evidence, f, indent=1, sort_keys=True)
 
     for line in known_lines:
